@@ -117,6 +117,21 @@ def expr_close(e1, e2, rel=REL):
     if e1.func == e2.func and len(e1.args) == len(e2.args) and e1.args:
         if all(expr_close(x, y, rel) for x, y in zip(e1.args, e2.args)):
             return True
+    Boolean = sympy.logic.boolalg.Boolean
+    if isinstance(e1, Boolean) or isinstance(e2, Boolean):
+        # relations and boolean connectives: structure only (truth values at sample points prove nothing);
+        # And/Or/Xor arguments are unordered
+        if e1.func != e2.func or len(e1.args) != len(e2.args) or not e1.args:
+            return False
+        if not isinstance(e1, (sympy.And, sympy.Or, sympy.Xor)):
+            return False
+        rest = list(e2.args)
+        for x in e1.args:
+            hit = next((i for i, y in enumerate(rest) if expr_close(x, y, rel)), None)
+            if hit is None:
+                return False
+            rest.pop(hit)
+        return True
     # structural walk failed (argument re-ordering after rounding, Pow(pi,-1) vs Float ...): the expressions
     # must at least denote the same function of their symbols: evaluate at generic points.
     syms = sorted(e1.free_symbols, key=str)
@@ -127,7 +142,7 @@ def expr_close(e1, e2, rel=REL):
         try:
             v1 = complex(e1.evalf(17, subs=sub))
             v2 = complex(e2.evalf(17, subs=sub))
-        except TypeError:
+        except (TypeError, AttributeError, ValueError):
             return False
         if not abs(v1 - v2) <= 4 * rel * max(abs(v1), abs(v2), 1.0):
             return False
@@ -1144,6 +1159,7 @@ def make_condition_stage():
     cases += [("single", i, 0) for i in range(n) if C[i][1] is not None]
     q0, q1, q2 = SLOTS[0][0], SLOTS[0][1], SLOTS[1][0]
     sub = cirq.FrozenCircuit(cirq.measure(q0, key="m"), cirq.measure(q1, key="k"), cirq.measure(q2, key="j"), cirq.X(q0))
+    sub_nm = cirq.FrozenCircuit(cirq.X(q0), cirq.CZ(q0, q1))      # (cirq does not allow controlling a measuring sub-circuit)
     partners = [cirq.KeyCondition(cirq.MeasurementKey("k")),
                 cirq.BitMaskKeyCondition("j", bitmask=0, target_value=0, equal_target=True, index=0),
                 cirq.SympyCondition(sympy.Eq(sympy.Symbol("j"), 0))]
@@ -1166,7 +1182,7 @@ def make_condition_stage():
             ("control of a tagged 2q op", lambda: cirq.Circuit(
                 cirq.CZ(q0, q1).with_tags(cg.CalibrationTag("x")).with_classical_controls(c), cirq.CZ(q0, q1))),
             ("control of a CircuitOperation", lambda: cirq.Circuit(
-                cirq.CircuitOperation(sub, repetitions=2).with_classical_controls(c))),
+                cirq.CircuitOperation(sub_nm, repetitions=2).with_classical_controls(c))),
         ]
         for pn, prt in enumerate(partners):
             circuits.append((f"with partner {pn}", lambda prt=prt: cirq.Circuit(cirq.X(q0).with_classical_controls(c, prt))))
@@ -1174,9 +1190,8 @@ def make_condition_stage():
         try:
             ru = cirq.CircuitOperation(sub, use_repetition_ids=False, repeat_until=c)
             circuits.append(("repeat_until", lambda: cirq.Circuit(ru, cirq.X(q0).with_classical_controls(c))))
-            circuits.append(("repeat_until + control", lambda: cirq.Circuit(
-                ru.with_classical_controls(partners[1]), cirq.CircuitOperation(sub, use_repetition_ids=False,
-                                                                                repeat_until=partners[1]))))
+            circuits.append(("two repeat_until", lambda: cirq.Circuit(
+                ru, cirq.CircuitOperation(sub, use_repetition_ids=False, repeat_until=partners[1]), ru)))
         except ValueError:
             pass        # cirq.CircuitOperation rejects a repeat_until whose keys the sub-circuit does not measure
         if flag == "rej":
